@@ -424,17 +424,41 @@ func ruleCmd(c *Ctx) {
 							return
 						}
 						call := i.(*ssa.Call)
-						if what != "fmt.Printf" {
-							bad = "the result is written with " + what + ", not with a constant \"%s\" format"
+						var operand ssa.Value
+						switch {
+						case what == "fmt.Printf":
+							f, ok := strConst(call.Call.Args[0])
+							if !ok || f != "%s" {
+								bad = "the print format is not the constant \"%s\" (a document containing % would be mangled, or extra bytes are printed)"
+								return
+							}
+							ops, ok := varargsOperands(call.Call.Args[1])
+							if ok && len(ops) == 1 {
+								operand = ops[0]
+							}
+						case strings.HasPrefix(what, "os.(*File).Write") || what == "os.Stdout.Write":
+							// Write(b) / WriteString(string(b)): the bytes as they are
+							if len(call.Call.Args) >= 2 {
+								operand = call.Call.Args[1]
+							} else if len(call.Call.Args) == 1 {
+								operand = call.Call.Args[0]
+							}
+						case what == "fmt.Print" || what == "fmt.Fprint(os.Stdout, …)" || what == "io.WriteString(os.Stdout, …)":
+							// a single string operand is written as it is (a []byte operand would be
+							// printed as a list of numbers)
+							last := call.Call.Args[len(call.Call.Args)-1]
+							if what == "io.WriteString(os.Stdout, …)" {
+								operand = last
+							} else if ops, ok := varargsOperands(last); ok && len(ops) == 1 {
+								if mi, isMI := ops[0].(*ssa.MakeInterface); isMI && isStringType(mi.X.Type()) {
+									operand = ops[0]
+								}
+							}
+						default:
+							bad = "the result is written with " + what + ", which does not write its operand byte for byte"
 							return
 						}
-						f, ok := strConst(call.Call.Args[0])
-						if !ok || f != "%s" {
-							bad = "the print format is not the constant \"%s\" (a document containing % would be mangled, or extra bytes are printed)"
-							return
-						}
-						ops, ok := varargsOperands(call.Call.Args[1])
-						if !ok || len(ops) != 1 || !foldResultInMain(unwrapConv(ops[0])) {
+						if operand == nil || !foldResultInMain(unwrapConv(operand)) {
 							bad = "the printed operand is not the final value of the fold"
 							return
 						}
@@ -458,6 +482,36 @@ func ruleCmd(c *Ctx) {
 									if p, ok := ia.X.(*ssa.Parameter); ok {
 										for _, hc := range callsTo(mainFn, func(cc *ssa.CallCommon) bool { return cc.StaticCallee() == applyFn }) {
 											sliceInDecodeFn = hc.Common().Args[paramIdx(p)]
+										}
+									}
+								}
+								// filled by appending: patches = append(patches, decoded) once per iteration of the
+								// loop over the flag values keeps their order as well
+								if phi, ok := sliceInDecodeFn.(*ssa.Phi); ok && isLoopHeader(phi.Block()) {
+									for _, e := range phi.Edges {
+										ap, ok := e.(*ssa.Call)
+										if !ok || len(ap.Call.Args) != 2 {
+											continue
+										}
+										if bi, ok := ap.Call.Value.(*ssa.Builtin); !ok || bi.Name() != "append" || ap.Call.Args[0] != ssa.Value(phi) {
+											continue
+										}
+										ops, ok := varargsOperands(ap.Call.Args[1])
+										if !ok || len(ops) != 1 {
+											continue
+										}
+										ex, ok := ops[0].(*ssa.Extract)
+										if !ok || ex.Tuple != ssa.Value(decode) || ex.Index != 0 {
+											continue
+										}
+										dom := true
+										for _, src := range backEdgeSources(phi.Block()) {
+											if !ap.Block().Dominates(src) {
+												dom = false
+											}
+										}
+										if dom {
+											okOrder = true
 										}
 									}
 								}
